@@ -418,7 +418,42 @@ pub struct EnvCase {
     /// simulated wall clock (ns since the epoch) during the exec, if the case fixes one
     #[serde(default)]
     pub clock_ns: Option<i64>,
+    /// history injected before the exec under test, on the same thread (DESIGN.md §12.6):
+    /// failed compiles, failed and successful executions; their outcomes are not compared,
+    /// they must simply not matter
+    #[serde(default)]
+    pub pre: Vec<PreOp>,
 }
+
+#[derive(Clone, Debug, PartialEq, Eq, Serialize, Deserialize)]
+pub struct PreOp {
+    /// false: before the case's programs are added; true: after programs and bindings are
+    /// set up, right before the exec under test
+    pub late: bool,
+    /// true: on the case's own context (under a name no program uses) and with the case's
+    /// bindings; false: on a scratch context with empty bindings
+    pub own: bool,
+    pub kind: PreKind,
+}
+
+#[derive(Clone, Copy, Debug, PartialEq, Eq, Serialize, Deserialize)]
+pub enum PreKind {
+    /// add_program_str of a text that does not parse
+    BadCompile(u8),
+    /// Program::from_source of a text that does not parse (no context involved)
+    BadCompileFree(u8),
+    /// add and execute a program that fails: unbound name, division by zero, missing key
+    FailExec(u8),
+    /// add and execute a self-referencing program: runs into the depth limit
+    DepthExec(u8),
+    /// add and execute a program that succeeds (macros, stored-program reference)
+    OkExec(u8),
+}
+
+pub const BAD_TEXTS: [&str; 6] = ["1 +", "(", "[1, 2", "x ? 1", "'abc", "1 2"];
+pub const FAIL_TEXTS: [&str; 5] = ["nobody_binds_this_name", "1 / 0", "{'a': 1}.b", "[1][7]", "nobody_a || nobody_b"];
+pub const DEPTH_TEXTS: [&str; 4] = ["zz_pre + 1", "[1].map(v, zz_pre)[0]", "coalesce(zz_pre, 1)", "f'{zz_pre}'"];
+pub const OK_TEXTS: [&str; 5] = ["[1, 2, 3].map(v, v + 1)", "{'b': 1, 'a': 2}.map(k, k)", "[1, 2].all(v, v > 0) ? 'y' : 'n'", "coalesce(nobody_here, 4)", "has({'a': 1}.a)"];
 
 fn yes() -> bool {
     true
